@@ -1,4 +1,6 @@
 """C02 -- ForecastingHorizon conversions are exact, order-preserving and mutually inverse."""
+from fractions import Fraction
+
 from ..runner import Harness
 from ..hutil import L, S, fresh_ints
 
@@ -137,6 +139,11 @@ class C02(Harness):
         out["frac_array"] = rej(lambda: FH(np.array([inp["frac"]])))
         out["frac_list"] = rej(lambda: FH([v, inp["frac"]]))
         out["float_scalar"] = rej(lambda: FH(inp["frac"]))
+        # a single value of an unsupported numeric type is refused even when it happens to be whole-valued
+        out["whole_float_scalar"] = rej(lambda: FH(2.0))
+        out["whole_npfloat_scalar"] = rej(lambda: FH(np.float64(3.0)))
+        out["whole_fraction_scalar"] = rej(lambda: FH(Fraction(4, 2)))
+        out["whole_float_check_fh"] = rej(lambda: chk.check_fh(-1.0))
         out["str"] = rej(lambda: FH("1"))
         out["str_list"] = rej(lambda: FH(["a", "b"]))
         out["none_in_list"] = rej(lambda: FH([v, None]))
